@@ -124,6 +124,13 @@ def _build(d):
         y = _decimal_string(d)
         if fn == 'MOD' and d.chance(1, 10):
             y = '0'
+        elif fn == 'MOD' and d.chance(1, 6):
+            # BOTH operands tiny (or both huge): products and quotients of
+            # the two leave the range although the remainder does not
+            e = d.choice(['e-200', 'e-300', 'e-165', 'e-180', 'e+200',
+                          'e+300'])
+            x = d.choice(['3', '-3', '2.5', '-7.5', '1']) + e
+            y = d.choice(['2', '-2', '4', '-0.5']) + e
         return {'fn': fn, 'args': [x, y], 'mode': mode}
     if fn in ('POWER', 'CARET'):
         k = d.pick(6)
